@@ -607,6 +607,13 @@ class DateTimeFieldFormat(AbstractFieldFormat):
         self.strptime_format = rule
         for human_readyble_item, strptime_item in DateTimeFieldFormat._HUMAN_READABLE_TO_STRPTIME_TUPLES:
             self.strptime_format = self.strptime_format.replace(human_readyble_item, strptime_item)
+        for directive in DateTimeFieldFormat._STRPTIME_DATE_DIRECTIVES + DateTimeFieldFormat._STRPTIME_TIME_DIRECTIVES:
+            if self.strptime_format.count(directive) > 1:
+                # time.strptime() cannot deal with the same directive occurring twice.
+                raise errors.InterfaceError(
+                    "date format for field %s must contain each placeholder at most once: %s"
+                    % (_compat.text_repr(field_name), _compat.text_repr(rule))
+                )
         self._has_time = any(
             directive in self.strptime_format for directive in DateTimeFieldFormat._STRPTIME_TIME_DIRECTIVES
         )
